@@ -694,6 +694,11 @@ impl<'a> Model<'a> {
                 let x = self.eval(e, f)?;
                 f.i[*v as usize] = if x == 0 { 10 } else { self.eval(e2, f)? };
             }
+            Stmt::KeyChainCall(v, func, arg, site, _) => {
+                let a = self.eval(arg, f)?;
+                let line = self.printed.call_line[*site as usize];
+                f.i[*v as usize] = self.invoke(*func, a, line, Conduit::Plain)?;
+            }
             Stmt::AssignLambdaCall(v, func, arg, site) => {
                 let a = self.eval(arg, f)?;
                 let stmt_line = self.printed.call_line[*site as usize];
